@@ -19,6 +19,7 @@ var errSim = errors.New("verifsim: injected I/O error")
 // bytes.  Every field's zero value is the simplest behaviour.
 type ReadSched struct {
 	Seeker      int         `json:"seeker,omitempty"`          // 1: also an io.Seeker that works (like a regular *os.File); 2: Seek always fails (like a pipe)
+	Bufio       int         `json:"bufio,omitempty"`           // >0: the caller hands mxj its own *bufio.Reader of this size wrapped around the stream
 	ByteReader  bool        `json:"byte_reader,omitempty"`     // also implements io.ByteReader
 	Chunk       int         `json:"chunk_policy"`              // 0 = as much as asked, 1 = one byte, 2 = seeded 1..7
 	ChunkSeed   uint64      `json:"chunk_seed,omitempty"`      // for policy 2
@@ -47,6 +48,9 @@ func (s *ReadSched) String() string {
 	}
 	if s.Seeker > 0 {
 		zr += []string{"", " seekable", " seek-fails"}[s.Seeker]
+	}
+	if s.Bufio > 0 {
+		zr += fmt.Sprintf(" callers-bufio(%d)", s.Bufio)
 	}
 	if s.ErrWithData {
 		zr += " errWithData"
@@ -92,6 +96,9 @@ func DrawReadSched(t *Tape, L int, faults bool) *ReadSched {
 	}
 	if t.Draw(8) == 7 {
 		s.ZeroEvery = 1 + t.Small(3)
+	}
+	if !faults && !s.ByteReader && s.Seeker == 0 && t.Draw(8) == 7 {
+		s.Bufio = []int{16, 17, 64, 4096}[t.Draw(4)]
 	}
 	if faults {
 		switch t.Draw(3) {
